@@ -919,5 +919,66 @@ def r10_live_socket(ctx):
     ctx.borrow(c18.r18_live, 'R10.15')
 
 
-RULES = [('R10.18', r10_server), ('R10.17', r10_fanout), ('R10.16', r10_multiport_borrows), ('R10.15', r10_live_socket), ('R10.14', r10_hook_order), ('R10.13', r10_socket_iteration), ('R10.12', r10_multi_ports), ('R10.11', r10_unbounded), ('R10.10', r10_shared_args), ('R10.8', r10_exec), ('R10.9', r10_abandoned), ('R10.1', r10_1), ('R10.2', r10_2), ('R10.3', r10_3), ('R10.4', r10_4), ('R10.5', r10_5), ('R10.6', r10_6), ('R10.7', r10_7)]
+def r10_connect_blocking(ctx):
+    """No send call raises or cuts a message short because of how the connection was set up: the socket behind a port that
+    connect() / SocketPort(host, port) hands out is in blocking mode without a timeout.  The port writes through
+    socket.makefile(), and "the socket must be in blocking mode; it can have a timeout, but the file object's internal buffer may
+    end up in an inconsistent state if a timeout occurs" (library reference): a write that times out has sent a part of a
+    message, and the next message follows the stump.  Decided on recording socket doubles: the timeout in force on the socket
+    the port writes through, after construction, is None."""
+    from ..absint import AbsRaise, AObj, log_event
+    S_ = 'mido.sockets'
+    ai = pm.make_interp(ctx)
+    made = []
+
+    def mk_socket(timeout, peer=None):
+        st = {'timeout': timeout, 'peer': peer, 'files': 0}
+
+        def setblocking(i, b, a, k, n):
+            st['timeout'] = None if (a[0] if a else k.get('flag')) else 0.0
+
+        def settimeout(i, b, a, k, n):
+            st['timeout'] = a[0] if a else k.get('value')
+
+        def connect(i, b, a, k, n):
+            st['peer'] = a[0] if a else None
+
+        def makefile(i, b, a, k, n):
+            st['files'] += 1
+            return pm.AMock('file', {'read': lambda *x: b'', 'write': lambda *x: None, 'flush': lambda *x: None, 'close': lambda *x: None})
+        m = pm.AMock('socket', {'setblocking': setblocking, 'settimeout': settimeout, 'connect': connect, 'makefile': makefile,
+                                'gettimeout': lambda i, b, a, k, n: st['timeout'], 'fileno': lambda i, b, a, k, n: ('fd', m),
+                                'setsockopt': lambda *x: None, 'close': lambda *x: None})
+        m.state = st
+        made.append(m)
+        return m
+    ai.summaries['socket.socket'] = lambda i, a, k, n: mk_socket(None)
+    ai.summaries['socket.create_connection'] = lambda i, a, k, n: mk_socket(k.get('timeout', a[1] if len(a) > 1 else None), a[0] if a else None)
+    m = ctx.p.module(S_)
+    for label, how in (('connect(host, port)', 'connect'), ('SocketPort(host, port)', 'SocketPort')):
+        def thunk():
+            made.clear()
+            if how == 'connect':
+                port = ai.call_function(ctx.p.func(S_, 'connect'), ['example', 9080], {})
+            else:
+                port = pm.new_port(ai, ctx, 'SocketPort', ['example', 9080], {}, module=S_)
+            used = [x for x in made if x.state['files']]
+            peer = used[0].state['peer'] if used else None
+            if hasattr(peer, 'items'):
+                peer = tuple(peer.items)
+            return [(x.state['timeout'], peer) for x in used]
+        fn = ctx.p.func(S_, 'connect') if how == 'connect' else ctx.p.lookup_method(ctx.p.cls(S_, 'SocketPort'), '__init__')[1]
+        ctx.fn(fn)
+        outs = ai.explore(thunk)
+        ok = len(outs) == 1 and outs[0].kind == 'return' and len(outs[0].value) == 1 and outs[0].value[0][0] is None \
+            and tuple(outs[0].value[0][1] or ()) == ('example', 9080)
+        ctx.require(ok, 'R10.19', f'{label}: the socket the port writes through', ctx.where(fn),
+                    f'(timeout in force, peer) of the sockets with file objects on them: {outs}; expected one socket connected to '
+                    f"('example', 9080) with no timeout (blocking): a send that times out leaves a part of a message on the wire",
+                    construct=f'{fn.qname}::blocking-socket')
+    for q in ai.inlined:
+        ctx.functions.add(q)
+
+
+RULES = [('R10.19', r10_connect_blocking), ('R10.18', r10_server), ('R10.17', r10_fanout), ('R10.16', r10_multiport_borrows), ('R10.15', r10_live_socket), ('R10.14', r10_hook_order), ('R10.13', r10_socket_iteration), ('R10.12', r10_multi_ports), ('R10.11', r10_unbounded), ('R10.10', r10_shared_args), ('R10.8', r10_exec), ('R10.9', r10_abandoned), ('R10.1', r10_1), ('R10.2', r10_2), ('R10.3', r10_3), ('R10.4', r10_4), ('R10.5', r10_5), ('R10.6', r10_6), ('R10.7', r10_7)]
 THOROUGH_RULES = [('R10-backends', r10_backends)]
